@@ -172,23 +172,34 @@ Pool == {V(t) : t \in Typed} \cup
     [ty |-> "utrune", c |-> NumC(Q(97)), src |-> "'a'"], [ty |-> "utstring", c |-> StrC("s"), src |-> "\"s\""],
     [ty |-> "utbool", c |-> BoolC(TRUE), src |-> "true"], [ty |-> "utnil", c |-> NoC, src |-> "nil"] }
 AllOps == Arith \cup Bit \cup Cmp \cup Logic
-CONSTANT Family   \* "binary" | "unary" | "shift" | "conv"
+CONSTANT Family   \* "binary" | "unary" | "shift" | "conv" | "nested"
+\* nested: (a op1 b) op2 c - the result of one operator (its type, its constant value, typed or untyped) as operand of the next
+NOps == {"+", "/", "%", "==", "<", "&&"}
+NPool == {p \in Pool : p.src \in {"v_int", "v_int8", "v_float64", "v_string", "v_bool", "v_MyInt", "c_i8", "c_int", "1", "300", "1.5", "2.0", "'a'", "\"s\"", "true"}}
 VARIABLE pt
 Dummy == CHOOSE p \in Pool : p.src = "0"
 Init == pt \in (CASE Family = "binary" -> AllOps \X Pool \X Pool
                   [] Family = "unary" -> {"u+", "u-", "u^", "u!"} \X Pool \X {Dummy}
                   [] Family = "shift" -> {"<<", ">>"} \X Pool \X Pool
+                  [] Family = "nested" -> NOps \X NOps \X NPool \X NPool \X NPool
                   [] OTHER -> {"conv"} \X Pool \X {V(t) : t \in Typed})
 Next == UNCHANGED pt
-Res == CASE Family = "binary" -> Binary(pt[1], pt[2], pt[3])
+Inner == Binary(pt[1], pt[3], pt[4])
+InnerText == "(" \o pt[3].src \o " " \o pt[1] \o " " \o pt[4].src \o ")"
+InnerOperand == [ty |-> Inner.ty, c |-> Inner.c, src |-> InnerText]
+Unmodelled(r) == r.ok /\ (r.ty = "skip" \/ (r.c # NoC /\ r.c.k = "skip"))
+Res == CASE Family = "nested" -> (IF ~Inner.ok \/ Unmodelled(Inner) THEN Inner ELSE Binary(pt[2], InnerOperand, pt[5]))
+         [] Family = "binary" -> Binary(pt[1], pt[2], pt[3])
          [] Family = "unary" -> Unary(SubSeq(pt[1], 2, 2), pt[2])
          [] Family = "conv" -> Conv(pt[3].ty, pt[2])
          [] OTHER -> Shift(pt[1], pt[2], pt[3])
 \* laws of the calculus, checked on every point
-Laws ==
+Laws == Family = "nested" \/
   /\ (Family = "binary" /\ pt[1] \in {"==", "!=", "+", "*", "&", "|", "^", "&&", "||"}) =>
         LET a == Binary(pt[1], pt[2], pt[3])  b == Binary(pt[1], pt[3], pt[2]) IN a.ok = b.ok        \* acceptance of commutative operators is symmetric
   /\ (Res.ok /\ Res.c # NoC /\ Res.c.k = "num" /\ ~IsUntyped(Res.ty) /\ Res.ty # "skip") => Representable(Res.c, Res.ty)   \* typed results are in range
   /\ (Res.ok /\ Res.c # NoC /\ Res.c.k # "skip") => (pt[2].c # NoC /\ (Family \in {"unary", "conv"} \/ pt[3].c # NoC))              \* constant only from constants
-Emit == PrintT(ToJson([op |-> pt[1], x |-> pt[2].src, y |-> IF Family = "conv" THEN pt[3].ty ELSE pt[3].src, r |-> Res]))
+Emit == IF Family = "nested"
+        THEN PrintT(ToJson([op |-> pt[2], x |-> InnerText, y |-> pt[5].src, iop |-> pt[1], ix |-> pt[3].src, iy |-> pt[4].src, inner |-> Inner, r |-> Res]))
+        ELSE PrintT(ToJson([op |-> pt[1], x |-> pt[2].src, y |-> IF Family = "conv" THEN pt[3].ty ELSE pt[3].src, r |-> Res]))
 ====
